@@ -852,8 +852,28 @@ func plantPackageOptionDiffers(e *Editor, ws *Workspace) (*Plant, bool) {
 			val = "false"
 		}
 	}
-	f.Options = SetOption(f.Options, o.name, val)
-	return &Plant{Op: "package-option-differs:" + o.name, Rule: o.rule, Desc: fmt.Sprintf("%s: %s = %s differs from the other files of package %s", f.Path, o.name, val, pkg), Sites: fileIDs(fs)}, true
+	op := "package-option-differs:"
+	anyHas := false
+	for _, x := range fs {
+		if _, ok := GetOption(x.Options, o.name); ok {
+			anyHas = true
+		}
+	}
+	switch {
+	case has && len(fs) > 1 && e.pick("unset", 3) == 0:
+		// the option is dropped from this file only: set in the others, unset here
+		f.Options = DelOption(f.Options, o.name)
+		op = "package-option-unset-in-one-file:"
+		val = "(unset)"
+	case !anyHas && o.name == "java_multiple_files" && e.pick("explicitfalse", 2) == 0:
+		// an explicit false in one file, unset in the others
+		val = "false"
+		f.Options = SetOption(f.Options, o.name, val)
+		op = "package-option-explicit-default-in-one-file:"
+	default:
+		f.Options = SetOption(f.Options, o.name, val)
+	}
+	return &Plant{Op: op + o.name, Rule: o.rule, Desc: fmt.Sprintf("%s: %s = %s differs from the other files of package %s", f.Path, o.name, val, pkg), Sites: fileIDs(fs)}, true
 }
 
 func plantDirectoryTwoPackages(e *Editor, ws *Workspace) (*Plant, bool) {
@@ -1062,6 +1082,13 @@ var PlantOps = []PlantOp{
 
 // ApplyPlant applies one planting operator.
 func (e *Editor) ApplyPlant(ws *Workspace) *Plant {
+	// a few independent uniform draws first: an operator's share then follows its own applicability instead of
+	// inheriting the share of inapplicable operators listed before it
+	for try := 0; try < 6; try++ {
+		if p, ok := PlantOps[e.pick("plantop", len(PlantOps))].Apply(e, ws); ok {
+			return p
+		}
+	}
 	start := e.pick("plantop", len(PlantOps))
 	for k := 0; k < len(PlantOps); k++ {
 		op := PlantOps[(start+k)%len(PlantOps)]
